@@ -59,21 +59,27 @@ def body_eval(prog, f, stmts, seed=None, rename=None, inline_self=False, no_inli
 
 
 def _first_cond(e, decided):
-    if e.op == "cond" and e.args[0] not in decided:
-        return e
+    """an undecided conditional whose test is itself free of conditionals (innermost first)"""
     for a in e.args:
         if isinstance(a, S.E):
             r = _first_cond(a, decided)
             if r is not None:
                 return r
+    if e.op == "cond" and e.args[0] not in decided:
+        return e
     return None
 
 
 def _apply_choices(e, decided):
     if e.op in ("const", "sym", "unknown"):
         return e
-    if e.op == "cond" and e.args[0] in decided:
-        return _apply_choices(e.args[1] if decided[e.args[0]] else e.args[2], decided)
+    if e.op == "cond":
+        t = _apply_choices(e.args[0], decided)
+        if t in decided:
+            return _apply_choices(e.args[1] if decided[t] else e.args[2], decided)
+        if t.is_const:
+            return _apply_choices(e.args[1] if S.truthy(t) else e.args[2], decided)
+        return S.E("cond", t, _apply_choices(e.args[1], decided), _apply_choices(e.args[2], decided))
     return S.E(e.op, *[_apply_choices(a, decided) if isinstance(a, S.E) else a for a in e.args])
 
 
@@ -86,7 +92,7 @@ def strip_cond(e, decided=None, limit=64):
     if c is None:
         yield [("T" if v else "F", _apply_choices(t, decided)) for t, v in decided.items()], cur
         return
-    if len(decided) > 8:
+    if len(decided) > 12:
         raise AnalysisError("too many nested conditionals in a pipeline expression")
     t = c.args[0]
     for v in (True, False):
